@@ -6,6 +6,7 @@ import (
 	"strings"
 	"testing"
 	"time"
+	"verifharness/internal/hook"
 
 	"pgregory.net/rapid"
 	"verifharness/internal/et"
@@ -19,7 +20,8 @@ type Case struct {
 	OOOMs     int64      `json:"ooo_ms"`
 	Events    []et.Event `json:"events"` // arrival order
 	Pauses    []int      `json:"pauses"`
-	Both      bool       `json:"both"` // also run burst and paced and compare (in-order cases)
+	Both      bool       `json:"both"`                // also run burst and paced and compare (in-order cases)
+	HookSeed  uint64     `json:"hook_seed,omitempty"` // seed of the engine's build-tag-guarded perturbation points (0 = off)
 }
 
 func genCase(t *rapid.T) Case {
@@ -74,6 +76,7 @@ func genCase(t *rapid.T) Case {
 			c.Pauses = append(c.Pauses, gen.Pause().Draw(t, "pause"))
 		}
 	}
+	c.HookSeed = hookSeed(t)
 	c.Both = !reordered && rapid.IntRange(0, 2).Draw(t, "both") == 0
 	return c
 }
@@ -166,6 +169,13 @@ func canon(ss []sess) string {
 }
 
 func runCase(c Case) (res pbt.Result) {
+	hook.Configure(c.HookSeed)
+	defer func() {
+		for site, n := range hook.Sites() {
+			res.Count("hook:"+site, n)
+		}
+		hook.Configure(0)
+	}()
 	ss, _, ok := feed(c, c.Pauses, &res)
 	if !ok {
 		return
@@ -292,14 +302,22 @@ func features(c Case) []string {
 }
 
 var spec = pbt.Spec[Case]{
-	ID:   "C10",
-	Rule: "generated: event-time session windows (timeout 0.5-5 s, 1-3 keys, per-key gaps from {0,1ms,T/4,T/2,T-1,T,T+1,3T}, OOO 0/1 s with within-tolerance swaps, burst/paced/mixed feeding, flush row from another key). oracle: reference sessionizer invariants - every accepted event in exactly one session of its key, consecutive gaps inside a session <= timeout, accepted neighbours closer than the timeout share a session, window_start = earliest ts, window_end = latest + timeout, no early firing, burst == paced for in-order input. non-trivial = a key with a gap above the timeout or a reordered accepted row; distinct by case hash",
+	ID:          "C10",
+	Rule:        "generated: event-time session windows (timeout 0.5-5 s, 1-3 keys, per-key gaps from {0,1ms,T/4,T/2,T-1,T,T+1,3T}, OOO 0/1 s with within-tolerance swaps, burst/paced/mixed feeding, flush row from another key). oracle: reference sessionizer invariants - every accepted event in exactly one session of its key, consecutive gaps inside a session <= timeout, accepted neighbours closer than the timeout share a session, window_start = earliest ts, window_end = latest + timeout, no early firing, burst == paced for in-order input. non-trivial = a key with a gap above the timeout or a reordered accepted row; distinct by case hash",
 	Assumptions: []string{"input never dropped (block strategy)", "gap == timeout may or may not split", "late-on-arrival rows may be reported or not"},
-	Gen:      genCase,
-	Run:      runCase,
-	Features: features,
+	Gen:         genCase,
+	Run:         runCase,
+	Features:    features,
 }
 
 func TestProp(t *testing.T)    { pbt.RunProp(t, spec) }
 func TestReplay(t *testing.T)  { pbt.RunReplay(t, spec) }
 func TestWitness(t *testing.T) { pbt.RunWitnesses(t, spec) }
+
+// hookSeed: two cases in three run with schedule perturbation at the engine's verif-tagged points.
+func hookSeed(t *rapid.T) uint64 {
+	if rapid.IntRange(0, 2).Draw(t, "hookon") == 0 {
+		return 0
+	}
+	return uint64(rapid.IntRange(1, 1<<30).Draw(t, "hookseed"))
+}
